@@ -209,7 +209,6 @@ def iniOk : V → Bool
   | .obj kvs =>
     (match lookup "main".toList kvs with
      | none => true
-     | some .null => true
      | some m => iniBodyOk m) &&
     (match lookup "sections".toList kvs with
      | some (.obj ss) => iniSectionsOk ss
